@@ -408,15 +408,23 @@ def name_collision_case(which, L, prefix=""):
                 label = "association-table-columns-differ"
         except Unmodelled as e:
             raise symx.SymxError("the name computation of the generator is outside the modelled subset: %s" % e)
+        # a collision of the plain scheme <class>dao_<field> itself (class and field names that run into each other across the
+        # separator, e.g. class A, field dao_A / class AdAO_, field A) is told apart from collisions that the name computation adds
+        same_ref = False
+        if which == "association-table-name":
+            r1, r2 = lower(c1) + "dao_" + f1, lower(c2) + "dao_" + f2
+            same_ref = (r1 == r2) if len(r1) == len(r2) else False
+        SFX_CI, SFX_SEP = "[class-names-differ-only-in-case]", "[names-run-into-each-other-across-the-separator]"
         if symbolic:
             # the solver decides whether colliding names exist at all (unsat = none within the bound); a satisfying
             # assignment is a candidate that the native re-run pushes through the real generator
-            v[label] = NOT(AND(collide, NOT(same_ci)))
-            v[label + "[class-names-differ-only-in-case]"] = NOT(AND(collide, same_ci))
+            v[label] = NOT(AND(collide, NOT(same_ci), NOT(same_ref)))
+            v[label + SFX_CI] = NOT(AND(collide, same_ci))
+            v[label + SFX_SEP] = NOT(AND(collide, NOT(same_ci), same_ref))
         else:
             if collide:
                 ok = _real_model_ok(ctx, *names)
-                v[label + ("[class-names-differ-only-in-case]" if same_ci else "")] = ok
+                v[label + (SFX_CI if same_ci else SFX_SEP if same_ref else "")] = ok
         ctx.note("nonempty", 1)
         return v
 
